@@ -40,7 +40,7 @@ Definition model_read (k : rcase) :=
   ((vcf_read_q c q_all, vcf_read_q c q, vcf_iter_q c q),
    (pgen_read_q pload_std false (rc_chunk k) c q_all,
     pgen_read_q pload_std false (rc_chunk k) c q,
-    pgen_iter_q pload_std c q)).
+    pgen_iter_q pload_std false c q)).
 
 Definition agree_read (k : rcase) : bool :=
   let '((vf, vr, vi), (pf, pr, pi)) := model_read k in
